@@ -182,6 +182,24 @@ def run_special(kind, start, n, dt):
     viol = []
     label = "%s start=%r dt=%r n=%d" % (kind, start, dt, n)
     eqs_l = EQS + ["dl", "acc"]
+    if kind == "run-again-runspecs":
+        # POST /run, then POST /run again on the same server with settings that carry run specs only (half the step): the second answer
+        # is the run on the finer grid (nothing of the first run's values is reused), then /run with the registered step once more
+        app, client = srv.make_server(srv.make_factory(start, stop, dt))
+        for rnd, (d_, settings) in enumerate(((dt, None), (dt / 2, {SM: {"base": {"runspecs": {"dt": dt / 2}}}}), (dt, {SM: {"base": {"runspecs": {"dt": dt}}}}))):
+            ref, times = refsd.RefModel(srv.ref_spec(start, stop, d_)), refsd.grid(start, stop, d_)
+            req = {"scenario_managers": [SM], "scenarios": ["base"], "equations": eqs_l}
+            if settings:
+                req["settings"] = settings
+            body = srv.body(client.post("/run", json=req))
+            ser = {eq: {float(k2): v for k2, v in d.items()} for eq, d in body[SM]["base"]["equations"].items()}
+            for eq in eqs_l:
+                for t in times:
+                    hit = [x for k2, x in ser.get(eq, {}).items() if core.close(k2, float(t))]
+                    if len(hit) != 1 or not core.close(hit[0], ref.value(eq, t), rel=1e-9, ab=1e-9):
+                        viol.append(("value/run-again-runspecs/round%d/%s" % (rnd, eq), "%s: /run #%d (dt %r): %s(%r) = %r, reference %r" % (label, rnd, d_, eq, float(t), hit, ref.value(eq, t))))
+                        return viol
+        return viol
     if kind == "begin-settings":
         spec = srv.ref_spec(start, stop, dt, k=3.0, r=0.2)
         ref, times = refsd.RefModel(spec), refsd.grid(start, stop, dt)
@@ -422,6 +440,7 @@ def jobs(tier):
     for (st, dt) in ((0, 1), (1, 0.5), (-2, 1)):
         out.append(("special", "begin-settings", st, 3, dt))
         out.append(("special", "back-to-registered", st, 5, dt))
+        out.append(("special", "run-again-runspecs", st, 4, dt))
     out.append(("special", "long", 0, 70, 1))
     out.append(("special", "long", 0, 240, 1))
     if tier == "thorough":
